@@ -19,6 +19,14 @@ CLAIMED = {
             "For each enumerated (d, shape, k, p) and every group element (pairs for the homomorphism) z3 proves the action equals the "
             "defining formula, composes, preserves pixel norms, for ALL real images; metadata read off the traced objects.",
             "Reals; bounded shapes/orders (k<=3); d=3 homomorphism on generator pairs in the quick tier; trusted as C01.", "4/C02"),
+    "C03": (JX, "real generation of the filter families + z3 (QF_LRA) over symbolic weights / a symbolic generic filter; Burnside count in exact integers",
+            "For each enumerated (G, d, M, k, p) z3 proves invariance for ALL weights, linear independence, and completeness (no invariant filter "
+            "outside the span); the family size equals the Burnside dimension.",
+            "Filter entries at the exact rational value of the produced float32; bounded (M<=5, k<=4 in d=2; M<=3..5, k<=3 in d=3); groups: B_d, rotations, C2^d, C4, trivial.", "4/C03"),
+    "C04": (JX, "symbolic execution of the jaxprs of geom.convolve / convolve_contract / convolve_with vs. a reference direct sum, z3 (QF_NRA) per option cell",
+            "For each enumerated option cell z3 proves that every output entry equals the defining direct sum for ALL real image batches and "
+            "filter banks; output shape and bilinearity are read off the symbolic result.",
+            "Reals; option cells sampled (pairwise-covering core + seeded sample), shapes <=5 (d=2), <=4 (d=3); wrap-around only in TORUS mode as documented.", "4/C04"),
 }
 
 NOT_YET = {}
